@@ -457,20 +457,29 @@ def plan (e : Env) (enc : Bytes → Bytes) : Op → Plan
   | .putObject b k hasBody hasMeta scOk lenPos counter =>
     if !scOk then .fail [] .invalidStorageClass
     else if !hasBody then .fail [] .incompleteBody
-    else if k.getLast? = some 47 then
-      if lenPos then .fail [] .unexpectedContent
-      else withPath (getObjectPath e b k) [] fun p => .ok [⟨.create, .dirChain p⟩]
     else
-      withPath (getObjectPath e b k) [] fun p =>
-      withPath (tmpPath e counter) [] fun tmp =>
-      let t1 := fileWrite tmp p (parentPath p)
-      let afterMeta (t : List Touch) : Plan :=
-        withPath (internalInfoPath e enc b k) t fun i => .ok (t ++ [cr i, wr i])
-      if hasMeta then withPath (metadataPath e enc b k none) t1 fun m => afterMeta (t1 ++ [cr m, wr m])
-      else afterMeta t1
+      -- the bucket directory must exist (`NoSuchBucket` otherwise)
+      withPath (getBucketPath e b) [] fun bp =>
+      let t0 := [rd bp]
+      if k.getLast? = some 47 then
+        if lenPos then .fail t0 .unexpectedContent
+        else withPath (getObjectPath e b k) t0 fun p => .ok (t0 ++ [⟨.create, .dirChain p⟩])
+      else
+        withPath (getObjectPath e b k) t0 fun p =>
+        withPath (tmpPath e counter) t0 fun tmp =>
+        let t1 := t0 ++ fileWrite tmp p (parentPath p)
+        let afterMeta (t : List Touch) : Plan :=
+          withPath (internalInfoPath e enc b k) t fun i => .ok (t ++ [cr i, wr i])
+        -- with metadata: written; without: a metadata file left by a previous object is removed
+        withPath (metadataPath e enc b k none) t1 fun m =>
+          if hasMeta then afterMeta (t1 ++ [cr m, wr m]) else afterMeta (t1 ++ [rd m, rm m])
   | .createMultipartUpload b k hasMeta uuid =>
-    withPath (uploadInfoPath e uuid) [] fun info =>
-    let t1 := [cr info, wr info]
+    -- the object path must be valid and the bucket must exist, before the upload record is created
+    withPath (getObjectPath e b k) [] fun _ =>
+    withPath (getBucketPath e b) [] fun bp =>
+    let t0 := [rd bp]
+    withPath (uploadInfoPath e uuid) t0 fun info =>
+    let t1 := t0 ++ [cr info, wr info]
     if hasMeta then withPath (metadataPath e enc b k (some uuid)) t1 fun m => .ok (t1 ++ [cr m, wr m])
     else .ok t1
   | .uploadPart _ _ uploadId part hasBody counter =>
@@ -536,7 +545,9 @@ def covers (e : Env) : Tgt → List Comp → Bool
 def primary (e : Env) : Op → Option Bytes
   | .createBucket b => (getBucketPath e b).toOption
   | .getObject b k => (getObjectPath e b k).toOption
-  | .copyObject false _ _ b k => (getObjectPath e b k).toOption
+  | .copyObject false sb sk b k =>
+    -- copying an object onto itself touches nothing (the copies are skipped)
+    if (getObjectPath e sb sk).toOption = (getObjectPath e b k).toOption then none else (getObjectPath e b k).toOption
   | .putObject b k true _ true _ _ => if k.getLast? = some 47 then none else (getObjectPath e b k).toOption
   | .deleteObject b k => if k.getLast? = some 47 then none else (getObjectPath e b k).toOption
   | .uploadPart _ _ uploadId part true _ => (parseUuid uploadId).bind fun u => (uploadPartPath e u part).toOption
